@@ -104,3 +104,84 @@ Section ConcProofs.
     apply conc_pmon; unfold PInv, proc0; cbn; destruct (streams_of c); exact I.
   Qed.
 End ConcProofs.
+
+(* the per-process oracle evaluated on OBSERVED logs (opmon, statements identified by id) accepts the
+   abstraction of every per-process log of the model: bit 16 of conc_spec_codes is never an artefact *)
+Section ConcObs.
+  Variables (cat stmt : Type).
+  Variable exec : stmt -> cat -> option cat.
+  Variable pexec : list bool -> stmt -> cat -> cat.
+  Variable scripts : stream -> list stmt.
+  Variable sids : stream -> list N.
+  Hypothesis sids_len : forall k, List.length (sids k) = List.length (scripts k).
+  Hypothesis sids_nonzero : forall k i, i < List.length (sids k) -> sid_at sids k i <> 0%N.
+
+  Definition ev_valid (e : event) : Prop :=
+    match e with EScript k i _ => i < List.length (scripts k) | _ => True end.
+
+  Lemma pstep_valid c p o (d : db cat) : Forall ev_valid (snd (pstep cat stmt exec pexec scripts c p o d)).
+  Proof.
+    unfold Migrate.pstep. destruct (p_ks p) as [|k ks]; [constructor|].
+    destruct (p_pc p) as [| | |i|i].
+    - destruct (do_call cat o (eff_create_ver cat) (peff_none cat) d). cbn. repeat constructor.
+    - destruct (do_call cat o (eff_create_vd cat) (peff_none cat) d). cbn. repeat constructor.
+    - destruct (do_call cat o (eff_read cat c) (peff_none cat) d). cbn. repeat constructor.
+    - destruct (nth_error (scripts k) i) as [x|] eqn:E; [|constructor].
+      destruct (do_call cat o (eff_script cat stmt exec x) (peff_script cat stmt pexec x) d). cbn.
+      constructor; [|constructor]. cbn. apply nth_error_Some. congruence.
+    - destruct (do_call cat o (eff_setver cat k (S i)) (peff_none cat) d). cbn. repeat constructor.
+  Qed.
+
+  Lemma conc_valid c : forall sched p q (d : db cat),
+    Forall (fun e => ev_valid (snd e)) (snd (conc_run cat stmt exec pexec scripts c sched p q d)).
+  Proof.
+    induction sched as [|[who o] rest IH]; intros p q d; cbn [Migrate.conc_run]; [constructor|].
+    destruct who.
+    - pose proof (pstep_valid c q o d) as Hv. destruct (pstep cat stmt exec pexec scripts c q o d) as [[q1 d1] l1].
+      specialize (IH p q1 d1). destruct (conc_run cat stmt exec pexec scripts c rest p q1 d1) as [[[pf qf] df] lf].
+      cbn [snd] in *. apply Forall_app. split; [|exact IH]. apply Forall_map. exact Hv.
+    - pose proof (pstep_valid c p o d) as Hv. destruct (pstep cat stmt exec pexec scripts c p o d) as [[p1 d1] l1].
+      specialize (IH p1 q d1). destruct (conc_run cat stmt exec pexec scripts c rest p1 q d1) as [[[pf qf] df] lf].
+      cbn [snd] in *. apply Forall_app. split; [|exact IH]. apply Forall_map. exact Hv.
+  Qed.
+
+  Notation abs := (abs_event sids).
+
+  Lemma pmon_opmon : forall l last, Forall ev_valid l -> (match last with Some e => ev_valid e | None => True end) ->
+    pmon last l = true -> opmon sids (option_map abs last) (map abs l) = true.
+  Proof.
+    induction l as [|e l IH]; intros last Hl Hlast H; [reflexivity|].
+    inversion Hl as [|? ? He Hl']; subst. cbn [pmon] in H. apply andb_true_iff in H. destruct H as [H1 H2].
+    cbn [map opmon]. rewrite (IH (Some e) Hl' He H2 : opmon sids (Some (abs e)) (map abs l) = true), andb_true_r.
+    destruct e as [r|r|k v r|k i r|k v r]; cbn [abs_event]; try reflexivity.
+    destruct last as [[r'|r'|k' v' r'|k' i r'|k' v' r']|]; try discriminate.
+    destruct r'; try discriminate. apply andb_true_iff in H1. destruct H1 as [Hk Hv].
+    apply stream_eqb_eq in Hk. subst k'. apply Nat.eqb_eq in Hv. subst v.
+    cbn [option_map abs_event]. rewrite stream_of_k_k, Nat2N.id. cbn [Nat.pred].
+    cbn in Hlast. rewrite <- sids_len in Hlast.
+    assert (Hnz : N.eqb (sid_at sids k i) 0 = false) by (apply N.eqb_neq, sids_nonzero, Hlast).
+    rewrite Hnz, N.eqb_refl. cbn [negb andb]. destruct (N.of_nat (S i)) eqn:E; [lia|reflexivity].
+  Qed.
+
+  Lemma plog_valid who (l : list (bool * event)) : Forall (fun e => ev_valid (snd e)) l -> Forall ev_valid (plog who l).
+  Proof.
+    unfold plog. induction l as [|e l IH]; intros H; cbn; [constructor|]. inversion H; subst.
+    destruct (Bool.eqb (fst e) who); cbn; [constructor; auto|auto].
+  Qed.
+
+  Lemma oplog_abs who (l : list (bool * event)) :
+    oplog who (map (fun e => (fst e, abs (snd e))) l) = map abs (plog who l).
+  Proof.
+    unfold oplog, plog. induction l as [|e l IH]; cbn; [reflexivity|].
+    destruct (Bool.eqb (fst e) who); cbn; now rewrite IH.
+  Qed.
+
+  Theorem conc_oracle_accepts c sched (d : db cat) who :
+    opmon sids None (oplog who (map (fun e => (fst e, abs (snd e)))
+                                  (snd (conc_run cat stmt exec pexec scripts c sched (proc0 c) (proc0 c) d)))) = true.
+  Proof.
+    rewrite oplog_abs. apply (pmon_opmon _ None); [apply plog_valid, conc_valid|exact I|].
+    destruct (conc_version_after_own_script cat stmt exec pexec scripts c sched d) as [Hp Hq].
+    destruct who; assumption.
+  Qed.
+End ConcObs.
